@@ -26,6 +26,7 @@ EXPLANATION = (
     "(ordered dtype or explicit levels=). R4.4 numeric values are the looked-up column through representation "
     "changes only. R4.5 one holder per component (see C06 R6.4). R4.6 label order = stacking order. Not decided: "
     "point-wise equality of a column with its data (runtime)."
+    ' R4.8 new data: the rows returned for categorical codes -1 / 0 / >0 are zero row / row 0 / row c of the remembered coding (abstract interpretation of the slow path of eval_new_data_categoric, with alias, copy and freshness tracking). R4.1 also: the stacked element of get_interaction_matrix is the plain product.'
 )
 ASSUMPTIONS = [
     "itertools.product varies its first argument slowest; functools.reduce is a left fold; np.column_stack preserves list order",
